@@ -22,7 +22,7 @@ CallFail(e) == IF Has(e, "hang") THEN "call.hangs" ELSE IF Has(e, "exc") THEN "c
                ELSE IF ~NoStructChange(e) \/ e.pd # T.pdepth THEN "call.struct-change" ELSE "ok"
 
 MkStep(e) ==
-  LET c0 == MkCheck(PP, T, e) IN
+  LET c0 == MkCheckEv(PP, T, e, LAMBDA d : f[d][1] > 0) IN
   IF c0 # "ok" THEN [T |-> T, f |-> f, pend |-> pend, err |-> c0]
   ELSE IF ph # "told" \/ pend # 0 THEN [T |-> T, f |-> f, pend |-> pend, err |-> "seq.unexpected-expansion"]
   ELSE IF Exhausted(HMax, s) THEN [T |-> T, f |-> f, pend |-> pend, err |-> "seq.opened-after-exhaustion"]
